@@ -423,8 +423,8 @@ Section Facts.
   Lemma parse_cs_brk li hi mid :
     mid <> [] -> contains_c ","%char mid = true ->
     parse_cs vok (brk (lo_c li) mid (hi_c hi)) =
-      if li && hi then parse_two vok $">=" $"<=" (brk (lo_c li) mid (hi_c hi))
-      else if negb li && negb hi then parse_two vok $">" $"<" (brk (lo_c li) mid (hi_c hi))
+      if li && hi then parse_incl vok (brk (lo_c li) mid (hi_c hi))
+      else if negb li && negb hi then parse_excl vok (brk (lo_c li) mid (hi_c hi))
       else parse_mixed vok (brk (lo_c li) mid (hi_c hi)).
   Proof.
     intros Hne Hcomma. unfold parse_cs.
@@ -438,6 +438,70 @@ Section Facts.
     split_c ","%char (a ++ ","%char :: b) = [a; b].
   Proof. intros Ha Hb. rewrite (split_c_app a b Ha), (split_c_none b Hb). reflexivity. Qed.
 
+  (* parseMixedRange on lo mid hi, by the emptiness of the two (clean) sides *)
+  Lemma parse_mixed_brk li hi a b :
+    clean a = true -> clean b = true ->
+    parse_mixed vok (brk (lo_c li) (a ++ ","%char :: b) (hi_c hi)) =
+      if is_nil a && negb (is_nil b) then (if vok b then Some [(hi_op hi, b)] else None)
+      else if negb (is_nil a) && is_nil b then (if vok a then Some [(lo_op li, a)] else None)
+      else two_bounds vok (lo_op li) (hi_op hi) a b.
+  Proof.
+    intros Hac Hbc. unfold parse_mixed. rewrite inner_brk, starts_brk, ends_brk.
+    rewrite (split_pair a b (clean_no_comma a Hac) (clean_no_comma b Hbc)).
+    rewrite (clean_trim a Hac), (clean_trim b Hbc).
+    destruct li, hi; reflexivity.
+  Qed.
+
+  Lemma parse_incl_brk li hi a b :
+    clean a = true -> clean b = true ->
+    parse_incl vok (brk (lo_c li) (a ++ ","%char :: b) (hi_c hi)) = two_bounds vok $">=" $"<=" a b.
+  Proof.
+    intros Hac Hbc. unfold parse_incl. rewrite inner_brk.
+    rewrite (split_pair a b (clean_no_comma a Hac) (clean_no_comma b Hbc)).
+    rewrite (clean_trim a Hac), (clean_trim b Hbc). reflexivity.
+  Qed.
+
+  Lemma parse_excl_brk li hi a b :
+    clean a = true -> clean b = true ->
+    parse_excl vok (brk (lo_c li) (a ++ ","%char :: b) (hi_c hi)) =
+      if xorb (is_nil a) (is_nil b)
+      then parse_mixed vok (brk (lo_c li) (a ++ ","%char :: b) (hi_c hi))
+      else two_bounds vok $">" $"<" a b.
+  Proof.
+    intros Hac Hbc. unfold parse_excl. rewrite inner_brk.
+    rewrite (split_pair a b (clean_no_comma a Hac) (clean_no_comma b Hbc)).
+    rewrite (clean_trim a Hac), (clean_trim b Hbc). reflexivity.
+  Qed.
+
+  (* the constraint list of  lo a , b hi  for clean (possibly empty) sides *)
+  Lemma parse_cs_sides li hi a b :
+    clean a = true -> clean b = true ->
+    parse_cs vok (brk (lo_c li) (a ++ ","%char :: b) (hi_c hi)) =
+      if li && hi then two_bounds vok $">=" $"<=" a b
+      else if is_nil a && negb (is_nil b) then (if vok b then Some [(hi_op hi, b)] else None)
+      else if negb (is_nil a) && is_nil b then (if vok a then Some [(lo_op li, a)] else None)
+      else two_bounds vok (lo_op li) (hi_op hi) a b.
+  Proof.
+    intros Hac Hbc.
+    assert (Hmid_ne : a ++ ","%char :: b <> []) by (destruct a; discriminate).
+    assert (Hmid_c : contains_c ","%char (a ++ ","%char :: b) = true).
+    { rewrite contains_c_app. simpl. rewrite orb_true_r. reflexivity. }
+    rewrite (parse_cs_brk li hi _ Hmid_ne Hmid_c).
+    rewrite (parse_incl_brk li hi a b Hac Hbc), (parse_excl_brk li hi a b Hac Hbc),
+            (parse_mixed_brk li hi a b Hac Hbc).
+    destruct li, hi, a, b; reflexivity.
+  Qed.
+
+  Lemma sides_trim li hi a b :
+    clean a = true -> clean b = true ->
+    trim_space (brk (lo_c li) (a ++ ","%char :: b) (hi_c hi)) = brk (lo_c li) (a ++ ","%char :: b) (hi_c hi).
+  Proof.
+    intros Hac Hbc. apply trim_brk.
+    change (a ++ ","%char :: b) with (a ++ [","%char] ++ b).
+    rewrite !no_space_app, (nsb_no_space a (clean_nsb a Hac)), (nsb_no_space b (clean_nsb b Hbc)).
+    reflexivity.
+  Qed.
+
   (* [a,b] (a,b) [a,b) (a,b] *)
   Theorem parse_range_interval li hi a b :
     bound_scope a = true -> bound_scope b = true -> vok a = true -> vok b = true ->
@@ -447,26 +511,10 @@ Section Facts.
     intros Hsa Hsb Ha Hb t.
     apply bound_scope_facts in Hsa. destruct Hsa as (Hane & Hac & _).
     apply bound_scope_facts in Hsb. destruct Hsb as (Hbne & Hbc & _).
-    assert (Hmid_ns : no_space (a ++ ","%char :: b) = true).
-    { change (a ++ ","%char :: b) with (a ++ [","%char] ++ b).
-      rewrite !no_space_app, (nsb_no_space a (clean_nsb a Hac)), (nsb_no_space b (clean_nsb b Hbc)).
-      reflexivity. }
-    assert (Hmid_ne : a ++ ","%char :: b <> []) by (destruct a; discriminate).
-    assert (Hmid_c : contains_c ","%char (a ++ ","%char :: b) = true).
-    { rewrite contains_c_app. simpl. rewrite orb_true_r. reflexivity. }
-    apply parse_range_of_cs; [apply brk_ne|apply (trim_brk li hi _ Hmid_ns)|].
-    unfold t at 1. rewrite (parse_cs_brk li hi _ Hmid_ne Hmid_c). fold t.
-    assert (Htwo : forall lo_o hi_o, parse_two vok lo_o hi_o t = Some [(lo_o, a); (hi_o, b)]).
-    { intros lo_o hi_o. unfold parse_two, t. rewrite inner_brk.
-      rewrite (split_pair a b (clean_no_comma a Hac) (clean_no_comma b Hbc)).
-      rewrite (clean_trim a Hac), (clean_trim b Hbc), Ha, Hb. reflexivity. }
-    assert (Hmix : parse_mixed vok t = Some [(lo_op li, a); (hi_op hi, b)]).
-    { unfold parse_mixed, t. rewrite inner_brk, starts_brk, ends_brk.
-      rewrite (split_pair a b (clean_no_comma a Hac) (clean_no_comma b Hbc)).
-      rewrite (clean_trim a Hac), (clean_trim b Hbc), Ha, Hb.
-      destruct a; [congruence|]. destruct b; [congruence|].
-      destruct li, hi; reflexivity. }
-    destruct li, hi; cbn [andb negb]; rewrite ?Htwo, ?Hmix; reflexivity.
+    apply parse_range_of_cs; [apply brk_ne|apply sides_trim; assumption|].
+    unfold t. rewrite (parse_cs_sides li hi a b Hac Hbc). unfold two_bounds. rewrite Ha, Hb.
+    destruct a; [congruence|]. destruct b; [congruence|].
+    destruct li, hi; reflexivity.
   Qed.
 
   Theorem nuget_c05_interval li hi a b v :
@@ -504,108 +552,92 @@ Section Facts.
     rewrite (parse_range_exact a Hsa Ha), Hv. cbn. rewrite andb_true_r. reflexivity.
   Qed.
 
-  (* half-open forms.  Only the MIXED bracket pairs reach the code that handles an empty side:
-       [a,)  is  >= a        (,b]  is  <= b       [,b)  is  < b        (a,]  is  > a *)
-  Theorem parse_range_lower_only li a :
-    bound_scope a = true -> vok a = true ->
-    let t := brk (lo_c li) (a ++ $",") (hi_c (negb li)) in
+  (* half-open forms: every bracket pair except [ ] handles an empty side
+       [a,)  is  >= a     (a,)  is  > a     (a,]  is  > a
+       (,b]  is  <= b     (,b)  is  < b     [,b)  is  < b *)
+  Theorem parse_range_lower_only li hi a :
+    li && hi = false -> bound_scope a = true -> vok a = true ->
+    let t := brk (lo_c li) (a ++ $",") (hi_c hi) in
     parse_range vok t = Some {| r_cs := [(lo_op li, a)]; r_orig := t |}.
   Proof.
-    intros Hsa Ha t.
+    intros Hk Hsa Ha t.
     apply bound_scope_facts in Hsa. destruct Hsa as (Hane & Hac & _).
-    assert (Hmid_ns : no_space (a ++ $",") = true).
-    { rewrite no_space_app, (nsb_no_space a (clean_nsb a Hac)). reflexivity. }
-    assert (Hmid_ne : a ++ $"," <> []) by (destruct a; discriminate).
-    assert (Hmid_c : contains_c ","%char (a ++ $",") = true).
-    { rewrite contains_c_app. simpl. rewrite orb_true_r. reflexivity. }
-    apply parse_range_of_cs; [apply brk_ne|apply (trim_brk li (negb li) _ Hmid_ns)|].
-    unfold t at 1. rewrite (parse_cs_brk li (negb li) _ Hmid_ne Hmid_c). fold t.
-    assert (Hmix : parse_mixed vok t = Some [(lo_op li, a)]).
-    { unfold parse_mixed, t. rewrite inner_brk, starts_brk, ends_brk.
-      change (a ++ $",") with (a ++ ","%char :: []).
-      rewrite (split_pair a [] (clean_no_comma a Hac) eq_refl).
-      rewrite (clean_trim a Hac), Ha.
-      destruct a; [congruence|]. destruct li; reflexivity. }
-    destruct li; cbn [andb negb]; rewrite Hmix; reflexivity.
+    apply parse_range_of_cs; [apply brk_ne|apply (sides_trim li hi a [] Hac eq_refl)|].
+    unfold t. change (a ++ $",") with (a ++ ","%char :: []).
+    rewrite (parse_cs_sides li hi a [] Hac eq_refl), Hk, Ha.
+    destruct a; [congruence|]. reflexivity.
   Qed.
 
-  Theorem parse_range_upper_only hi b :
-    bound_scope b = true -> vok b = true ->
-    let t := brk (lo_c (negb hi)) (","%char :: b) (hi_c hi) in
+  Theorem parse_range_upper_only li hi b :
+    li && hi = false -> bound_scope b = true -> vok b = true ->
+    let t := brk (lo_c li) (","%char :: b) (hi_c hi) in
     parse_range vok t = Some {| r_cs := [(hi_op hi, b)]; r_orig := t |}.
   Proof.
-    intros Hsb Hb t.
+    intros Hk Hsb Hb t.
     apply bound_scope_facts in Hsb. destruct Hsb as (Hbne & Hbc & _).
-    assert (Hmid_ns : no_space (","%char :: b) = true).
-    { change (","%char :: b) with ([","%char] ++ b).
-      rewrite no_space_app, (nsb_no_space b (clean_nsb b Hbc)). reflexivity. }
-    assert (Hmid_ne : ","%char :: b <> []) by discriminate.
-    assert (Hmid_c : contains_c ","%char (","%char :: b) = true) by reflexivity.
-    apply parse_range_of_cs; [apply brk_ne|apply (trim_brk (negb hi) hi _ Hmid_ns)|].
-    unfold t at 1. rewrite (parse_cs_brk (negb hi) hi _ Hmid_ne Hmid_c). fold t.
-    assert (Hmix : parse_mixed vok t = Some [(hi_op hi, b)]).
-    { unfold parse_mixed, t. rewrite inner_brk, starts_brk, ends_brk.
-      change (","%char :: b) with ([] ++ ","%char :: b).
-      rewrite (split_pair [] b eq_refl (clean_no_comma b Hbc)).
-      rewrite (clean_trim b Hbc), Hb.
-      destruct b; [congruence|]. destruct hi; reflexivity. }
-    destruct hi; cbn [andb negb]; rewrite Hmix; reflexivity.
+    apply parse_range_of_cs; [apply brk_ne|apply (sides_trim li hi [] b eq_refl Hbc)|].
+    unfold t. change (","%char :: b) with ([] ++ ","%char :: b).
+    rewrite (parse_cs_sides li hi [] b eq_refl Hbc), Hk, Hb.
+    destruct b; [congruence|]. reflexivity.
   Qed.
 
-  Theorem nuget_c05_lower_only li a v :
-    bound_scope a = true -> vok a = true -> vok v = true ->
-    rcontains (brk (lo_c li) (a ++ $",") (hi_c (negb li))) v = Some (sat (lo_cop li) (vcmp v a)).
+  Theorem nuget_c05_lower_only li hi a v :
+    li && hi = false -> bound_scope a = true -> vok a = true -> vok v = true ->
+    rcontains (brk (lo_c li) (a ++ $",") (hi_c hi)) v = Some (sat (lo_cop li) (vcmp v a)).
   Proof.
-    intros Hsa Ha Hv. cbn [r_contains Nuget.Entry.r].
-    rewrite (parse_range_lower_only li a Hsa Ha), Hv.
+    intros Hk Hsa Ha Hv. cbn [r_contains Nuget.Entry.r].
+    rewrite (parse_range_lower_only li hi a Hk Hsa Ha), Hv.
     destruct li; cbn; rewrite andb_true_r; reflexivity.
   Qed.
 
-  Theorem nuget_c05_upper_only hi b v :
-    bound_scope b = true -> vok b = true -> vok v = true ->
-    rcontains (brk (lo_c (negb hi)) (","%char :: b) (hi_c hi)) v = Some (sat (hi_cop hi) (vcmp v b)).
+  Theorem nuget_c05_upper_only li hi b v :
+    li && hi = false -> bound_scope b = true -> vok b = true -> vok v = true ->
+    rcontains (brk (lo_c li) (","%char :: b) (hi_c hi)) v = Some (sat (hi_cop hi) (vcmp v b)).
   Proof.
-    intros Hsb Hb Hv. cbn [r_contains Nuget.Entry.r].
-    rewrite (parse_range_upper_only hi b Hsb Hb), Hv.
+    intros Hk Hsb Hb Hv. cbn [r_contains Nuget.Entry.r].
+    rewrite (parse_range_upper_only li hi b Hk Hsb Hb), Hv.
     destruct hi; cbn; rewrite andb_true_r; reflexivity.
   Qed.
 
-  (* FINDING: with SAME-KIND brackets an empty side is handed to NewVersion, so the NuGet
-     notations (a,) "greater than a" and (,b) "less than b" — and [a,] [,b] — are rejected
-     whenever the empty text is not a version *)
-  Theorem same_kind_half_open_rejected incl a :
+  (* the two forms added by the fix, spelled out: (a,) is "> a", (,b) is "< b" *)
+  Corollary nuget_c05_exclusive_lower a v :
+    bound_scope a = true -> vok a = true -> vok v = true ->
+    rcontains ("("%char :: (a ++ $",") ++ $")") v = Some (sat CGt (vcmp v a)).
+  Proof. exact (nuget_c05_lower_only false false a v eq_refl). Qed.
+
+  Corollary nuget_c05_exclusive_upper b v :
+    bound_scope b = true -> vok b = true -> vok v = true ->
+    rcontains ("("%char :: (","%char :: b) ++ $")") v = Some (sat CLt (vcmp v b)).
+  Proof. exact (nuget_c05_upper_only false false b v eq_refl). Qed.
+
+  (* what is still rejected when the empty text is not a version: an empty side between
+     [ ] (parseInclusiveRange has no unbounded case), and two empty sides in any brackets *)
+  Theorem inclusive_half_open_rejected a :
     vok [] = false -> clean a = true ->
-    parse_range vok (brk (lo_c incl) (a ++ $",") (hi_c incl)) = None /\
-    parse_range vok (brk (lo_c incl) (","%char :: a) (hi_c incl)) = None.
+    parse_range vok (brk "["%char (a ++ $",") "]"%char) = None /\
+    parse_range vok (brk "["%char (","%char :: a) "]"%char) = None.
   Proof.
-    intros Hnil Hac.
-    assert (Hns : no_space a = true) by (apply nsb_no_space, clean_nsb, Hac).
-    split.
-    - assert (Hmid_ns : no_space (a ++ $",") = true) by (rewrite no_space_app, Hns; reflexivity).
-      assert (Hmid_ne : a ++ $"," <> []) by (destruct a; discriminate).
-      assert (Hmid_c : contains_c ","%char (a ++ $",") = true).
-      { rewrite contains_c_app. simpl. rewrite orb_true_r. reflexivity. }
-      apply parse_range_of_cs_none; [apply (trim_brk incl incl _ Hmid_ns)|].
-      rewrite (parse_cs_brk incl incl _ Hmid_ne Hmid_c).
-      assert (H2 : forall x y, parse_two vok x y (brk (lo_c incl) (a ++ $",") (hi_c incl)) = None).
-      { intros x y. unfold parse_two. rewrite inner_brk.
-        change (a ++ $",") with (a ++ ","%char :: []).
-        rewrite (split_pair a [] (clean_no_comma a Hac) eq_refl).
-        change (trim_space []) with (@nil ascii). rewrite Hnil.
-        destruct (vok (trim_space a)); reflexivity. }
-      destruct incl; cbn [andb negb]; rewrite H2; reflexivity.
-    - assert (Hmid_ns : no_space (","%char :: a) = true).
-      { change (","%char :: a) with ([","%char] ++ a). rewrite no_space_app, Hns. reflexivity. }
-      assert (Hmid_ne : ","%char :: a <> []) by discriminate.
-      assert (Hmid_c : contains_c ","%char (","%char :: a) = true) by reflexivity.
-      apply parse_range_of_cs_none; [apply (trim_brk incl incl _ Hmid_ns)|].
-      rewrite (parse_cs_brk incl incl _ Hmid_ne Hmid_c).
-      assert (H2 : forall x y, parse_two vok x y (brk (lo_c incl) (","%char :: a) (hi_c incl)) = None).
-      { intros x y. unfold parse_two. rewrite inner_brk.
-        change (","%char :: a) with ([] ++ ","%char :: a).
-        rewrite (split_pair [] a eq_refl (clean_no_comma a Hac)).
-        change (trim_space []) with (@nil ascii). rewrite Hnil. reflexivity. }
-      destruct incl; cbn [andb negb]; rewrite H2; reflexivity.
+    intros Hnil Hac. split.
+    - change (brk "["%char (a ++ $",") "]"%char)
+        with (brk (lo_c true) (a ++ ","%char :: []) (hi_c true)).
+      apply parse_range_of_cs_none; [apply (sides_trim true true a [] Hac eq_refl)|].
+      rewrite (parse_cs_sides true true a [] Hac eq_refl). unfold two_bounds.
+      cbn [andb]. rewrite Hnil. destruct (vok a); reflexivity.
+    - change (brk "["%char (","%char :: a) "]"%char)
+        with (brk (lo_c true) ([] ++ ","%char :: a) (hi_c true)).
+      apply parse_range_of_cs_none; [apply (sides_trim true true [] a eq_refl Hac)|].
+      rewrite (parse_cs_sides true true [] a eq_refl Hac). unfold two_bounds.
+      cbn [andb]. rewrite Hnil. reflexivity.
+  Qed.
+
+  Theorem empty_interval_rejected li hi :
+    vok [] = false -> parse_range vok (brk (lo_c li) $"," (hi_c hi)) = None.
+  Proof.
+    intros Hnil.
+    apply parse_range_of_cs_none; [apply (sides_trim li hi [] [] eq_refl eq_refl)|].
+    change ($",") with ([] ++ ","%char :: @nil ascii).
+    rewrite (parse_cs_sides li hi [] [] eq_refl eq_refl). unfold two_bounds.
+    cbn [is_nil andb negb]. rewrite Hnil. destruct (li && hi); reflexivity.
   Qed.
 
   (* ---------- C20 ---------- *)
@@ -673,15 +705,12 @@ Proof.
   intros Hin Hs. apply single_comparator_rejected; auto. apply self_vok_op_rejected; auto.
 Qed.
 
-(* FINDING (end to end): (a,) and (,b) — NuGet's "greater than a" / "less than b" — are rejected *)
-Theorem exclusive_half_open_rejected_self a :
+(* end to end: [a,] and [,b] are (still) rejected; (,) [,] [,) (,] too *)
+Theorem inclusive_half_open_rejected_self a :
   clean a = true ->
-  parse_range (self_vok Nuget.Entry.entry) ("("%char :: (a ++ $",") ++ $")") = None /\
-  parse_range (self_vok Nuget.Entry.entry) ("("%char :: (","%char :: a) ++ $")") = None.
-Proof.
-  intros Hc. exact (same_kind_half_open_rejected _ false a self_vok_nil Hc).
-Qed.
-
+  parse_range (self_vok Nuget.Entry.entry) ("["%char :: (a ++ $",") ++ $"]") = None /\
+  parse_range (self_vok Nuget.Entry.entry) ("["%char :: (","%char :: a) ++ $"]") = None.
+Proof. intros Hc. exact (inclusive_half_open_rejected _ a self_vok_nil Hc). Qed.
 
 (* the interval forms never produce != , hence are convex: instance for [a,b] etc. is immediate
    from parse_range_interval and nuget_c20_convex. *)
@@ -692,9 +721,12 @@ Print Assumptions nuget_c05_interval.
 Print Assumptions nuget_c05_exact.
 Print Assumptions nuget_c05_lower_only.
 Print Assumptions nuget_c05_upper_only.
-Print Assumptions same_kind_half_open_rejected.
+Print Assumptions nuget_c05_exclusive_lower.
+Print Assumptions nuget_c05_exclusive_upper.
+Print Assumptions inclusive_half_open_rejected.
+Print Assumptions empty_interval_rejected.
 Print Assumptions single_comparator_rejected.
 Print Assumptions single_comparator_rejected_self.
-Print Assumptions exclusive_half_open_rejected_self.
+Print Assumptions inclusive_half_open_rejected_self.
 Print Assumptions nuget_c20_eq.
 Print Assumptions nuget_c20_convex.
